@@ -539,7 +539,11 @@ func (s *Server) setConfig(dc *jsonDNSConfig) (shouldRestart bool) {
 	}
 
 	if dc.ProtectionEnabled != nil {
-		s.dnsFilter.SetProtectionEnabled(*dc.ProtectionEnabled)
+		// An explicit switch replaces a pending pause, as it does in
+		// handleSetProtection: otherwise UpdatedProtectionStatus keeps
+		// reporting the protection as disabled until the old deadline, and
+		// switches it back on at the deadline whatever has been set here.
+		s.dnsFilter.SetProtectionStatus(*dc.ProtectionEnabled, nil)
 	}
 
 	if dc.UpstreamMode != nil {
